@@ -130,7 +130,7 @@ def run_tlc(module, cfg, *, workers=16, env=None, timeout=1200, extra=(), metana
     meta = os.path.join(BUILD, "tlc", metaname or (module + "_" + os.path.splitext(os.path.basename(cfg))[0]))
     shutil.rmtree(meta, ignore_errors=True)
     os.makedirs(meta, exist_ok=True)
-    java = ["java", "-XX:+UseParallelGC", "-Xmx" + heap]
+    java = ["java", "-XX:+UseParallelGC", "-Xss128m", "-Xmx" + heap]
     if depth_first:
         java.append("-Dtlc2.tool.queue.IStateQueue=StateDeque")
     cmd = java + ["-cp", JAR + ":" + DEPS, "tlc2.TLC", "-workers", str(workers), "-metadir", meta,
